@@ -27,6 +27,32 @@ def leaf_gradient_check(model, C, D, classes, rs):
     return worst
 
 
+def impl_oracle(ctx, C, D, p, dw, classes, rs, rep):
+    """the property on the implementation for one configuration; True = holds"""
+    torch.manual_seed(int(rs.randint(10 ** 6)))
+    try:
+        model = DgcSpn((C, D, D), out_classes=classes, n_batch=2, sum_channels=2, depthwise=(list(dw) if isinstance(dw, list) else dw), n_pooling=p)
+    except Exception:
+        return True
+    model.eval()
+    for prm in model.parameters():
+        prm.data.normal_()
+    try:
+        with torch.no_grad():
+            z = model(torch.full((1, C, D, D), float('nan')))
+        if bool((z.abs() > 1e-4).any()):
+            ctx.violation('c17-all-missing', f'fully missing input has log-probability {z.tolist()}', replay=rep)
+            return False
+        worst = leaf_gradient_check(model, C, D, classes, rs)
+        if worst > 1e-3:
+            ctx.violation('c17-pixel-usage', f'some pixel is not used exactly once by the induced sub-circuits: sum of leaf gradients deviates from 1 by {worst:.4f} (side {D}, pooling {p})', replay=rep)
+            return False
+    except Exception as ex:
+        ctx.violation(f'c17-raises:{type(ex).__name__}', f'accepted configuration raised {type(ex).__name__}: {str(ex)[:200]}', replay=rep)
+        return False
+    return True
+
+
 def run(ctx):
     quick = ctx.tier == 'quick'
     cfgs = []
@@ -37,10 +63,12 @@ def run(ctx):
                 continue
             for dw in (True, False, [True, False]):
                 cfgs.append((D, p, dw))
+    all_cfgs = list(cfgs)
     rs0 = np.random.RandomState(np_seed(ctx.sub_rng('pick')))
     if quick:
         idx = rs0.permutation(len(cfgs))[:24]
         cfgs = [cfgs[i] for i in sorted(idx)]
+    model_mismatch = False
     for (D, p, dw) in cfgs:
         rs = np.random.RandomState(np_seed(ctx.sub_rng('cfg', D, p, str(dw))))
         C = int(rs.randint(1, 4)) if D <= 8 else 1
@@ -90,6 +118,7 @@ def run(ctx):
             if T.strip_mode(got) != expect:
                 ctx.violation('c17-layers-vs-model', f'layer schedule / cell scopes differ from the model\n impl : {expect[:300]}\n model: {T.strip_mode(got)[:300]}',
                               replay=rep, found_input=False)
+                model_mismatch = True
                 continue
             if not (forward_ok and scopes_ok and full_cover):
                 ctx.violation('c17-scopes', f'empirical cell scopes: forward_ok={forward_ok} product-form={scopes_ok} final cells cover all pixels={full_cover}', replay=rep)
@@ -106,7 +135,14 @@ def run(ctx):
                         ctx.violation('c17-forward-vs-model', f'forward value {out} vs unrolled circuit {vals}', replay=rep, found_input=False)
                         break
         if ctx.n_new() >= 3:
-            return
+            break
+    if model_mismatch and not any(v['found_input'] for v in ctx.violations):
+        # failing-input search: the property's own statement on the implementation, over every configuration (not only this run's sample)
+        for (D, p, dw) in all_cfgs:
+            rs = np.random.RandomState(np_seed(ctx.sub_rng('search', D, p, str(dw))))
+            ctx.count('search-configurations')
+            if not impl_oracle(ctx, 1, D, p, dw, 1, rs, dict(kind='c17', C=1, D=D, n_pooling=p, depthwise=dw, classes=1)):
+                break
 
 
 def replay(rep):
